@@ -189,6 +189,14 @@ Lemma x_regauge_b :
   keqb Qcring (kmul Qcring (snd (x_orth x_psi1)) (xq 1 2)) (k1 Qcring) = true.
 Proof. vm_compute. reflexivity. Qed.
 
+Lemma x_run2_unfold : x_run2 = tdvp_singlesite x_orth x_qr (kexp_ex Qcring) (kexp0_ex Qcring) xH
+  (mkmps (m_qd xPsi) (rq x_run1) (rA x_run1)) (kopp Qcring xdt) (kopp Qcring xhdt) x_steps.
+Proof. unfold x_run2, x_psi1. reflexivity. Qed.
+Lemma x_run2_eq : tdvp_singlesite x_orth x_qr (kexp_ex Qcring) (kexp0_ex Qcring) xH
+  (mkmps (m_qd xPsi) (rq x_run1) (rA x_run1)) (kopp Qcring xdt) (kopp Qcring xhdt) x_steps
+  = Some (rA x_run2, rq x_run2, rn x_run2, rt x_run2).
+Proof. rewrite <- x_run2_unfold. apply some_proj. exact x_run2_some. Qed.
+
 Theorem x_reversible :
   rn x_run2 = snd (x_orth x_psi1) /\
   forall w, In w (words 2 2) -> amp (m_A (fst (x_orth xPsi))) w = kmul Qcring (rn x_run2) (amp (rA x_run2) w).
@@ -200,18 +208,18 @@ Proof.
   apply (tdvp1_reversible Qcring x_orth x_qr (kexp_ex Qcring) (kexp0_ex Qcring) xH xPsi xdt xhdt x_steps 2 xDs xDs
            (rA x_run1) (rq x_run1) (rn x_run1) (rt x_run1) (rA x_run2) (rq x_run2) (rn x_run2) (rt x_run2)).
   - exact (some_proj x_run1 x_run1_some).
-  - exact (some_proj x_run2 x_run2_some).
+  - exact x_run2_eq.
   - lia.
-  - intros j Hj. cbn [xH o_A length] in Hj. destruct j as [|[|j]]; [| |lia]; apply osite_shape_ok; assumption.
+  - intros j Hj. cbn [xH o_A length] in Hj. destruct j as [|[|j]]; [exact (osite_shape_ok Qcring 2 1 2 xW0 s3)|exact (osite_shape_ok Qcring 2 2 1 xW1 s4)|lia].
   - intros j. unfold xDs. destruct (Nat.eqb j 1); lia.
   - reflexivity. - reflexivity. - reflexivity. - reflexivity.
   - apply kexp_ex_flow. - apply kexp0_ex_flow. - apply kexp_ex_cov. - apply kexp0_ex_cov.
-  - intros j Hj. cbn [xH o_A length] in Hj. destruct j as [|[|j]]; [| |lia]; apply site_shape_w; assumption.
-  - intros j Hj. cbn [xH o_A length] in Hj. assert (j = 1) by lia. subst j. apply right_isob_ok. exact s2.
-  - apply x_tr_okb_ok. exact x_tr1_ok.
-  - apply x_tr_okb_ok. exact x_tr2_ok.
+  - intros j Hj. cbn [xH o_A length] in Hj. destruct j as [|[|j]]; [exact (site_shape_w Qcring 2 1 2 _ s10)|exact (site_shape_w Qcring 2 2 1 _ s11)|lia].
+  - intros j Hj. cbn [xH o_A length] in Hj. assert (j = 1) by lia. subst j. exact (right_isob_ok Qcring _ s2).
+  - exact (x_tr_okb_ok true xdt xhdt _ x_tr1_ok).
+  - exact (x_tr_okb_ok false _ _ _ x_tr2_ok).
   - exists (fun j => idmx (xDs j)), (xq 1 2).
     split; [apply keqb_spec; exact g7|]. split; [reflexivity|]. split; [reflexivity|].
     split; [intros j _; apply unitary_idmx|]. split; [apply Nat.eqb_eq; exact g1|].
-    intros j Hj. cbn [xH o_A length] in Hj. destruct j as [|[|j]]; [| |lia]; cbn [Nat.eqb]; apply site_eqb_ok; assumption.
+    intros j Hj. cbn [xH o_A length] in Hj. destruct j as [|[|j]]; [exact (site_eqb_ok Qcring _ _ g40 g5 g2)|exact (site_eqb_ok Qcring _ _ g41 g6 g3)|lia].
 Qed.
